@@ -3,8 +3,9 @@
 (* the harness must run through the real pipeline (node keys incl. key sets without 0, non-contiguous and string keys; node  *)
 (* insertion orders; edge insertion orders and orientations; presentations of the same set of definitions = orders of the    *)
 (* input files and of the definitions inside a file that keep the relative order of definitions of the same thing).          *)
-(* (2) With Dev = the open findings: every result the I-layer can reach (DEVRES), used to classify a deviating observation   *)
-(* exactly as "equals the I-layer-with-deviation result".                                                                    *)
+(* (2) ExportDevRes (diagnostic, not part of the check since F31-F33 are repaired): every result the I-layer reaches with a  *)
+(* deviation record, e.g. DevKnownCanon; per variant the export still carries the result the repaired F33 would give for    *)
+(* that order of files (itpout), so that a returning defect is named in the VIOLATION message.                               *)
 EXTENDS IndependenceMC, Json
 
 (* ---- JSON shapes *)
